@@ -73,7 +73,9 @@ ItemJet(it, x) ==
   CASE it.t = "leaf" -> LeafJet(it, x)
     [] it.t = "sum" -> SumJets(it.args, x)                 \* sum(a, b, ...)(r) = a(r) + b(r) + ...
     [] it.t = "product" -> MulJets(it.args, x)             \* product(a, b, ...)(r) = a(r) * b(r) * ...
-    [] it.t = "pow" -> JPow(DefJet(it.args[1], x), it.k)   \* pow(a, as.constant k)(r) = a(r) ** k
+    \* pow(a, as.constant k)(r) = a(r) ** b(r) where the exponent b is itself a definition written without a marker: it acts
+    \* for r > 0 only, so at r <= 0 the exponent is 0 and the power is 1 (Python: 0.0 ** 0.0 = 1.0)
+    [] it.t = "pow" -> JPow(DefJet(it.args[1], x), IF RLt(RZero, x) THEN it.k ELSE 0)
     [] it.t = "trans" -> DefJet(it.args[1], RAdd(x, R(it.x)))  \* trans(f, as.constant X)(r) = f(r + X), f's range included
 
 \* x lies on a range boundary somewhere along the evaluation path: derivatives are not asserted there
